@@ -25,6 +25,7 @@ type SynOpts struct {
 	RRTwin     bool     // add a nonterminal with the same body as an existing alternative (reduce/reduce conflict), declared at a random place
 	SplitMore  bool     // split definitions more often
 	Large      bool     // several family trees under one start symbol: dozens of states and productions
+	ErrIdiom   bool     // with ErrorAlts: always the statement-list idiom (default: one grammar in three)
 	DupAlt     bool     // one grammar in three has an alternative written twice in one definition (the first copy wins)
 	Chains     bool     // one grammar in three starts with the chain family (FIRST sets that settle slowly)
 }
@@ -444,7 +445,7 @@ func SynGrammar(o SynOpts) *rapid.Generator[*gr.Grammar] {
 				b.prods[tgt].Alts = append(b.prods[tgt].Alts, gr.Alt_{Syms: []gr.Sym{b.term(), nt(nm)}})
 			}
 		}
-		if o.ErrorAlts && b.nNT+1 < len(ntNames) && rapid.IntRange(0, 2).Draw(t, "errList") == 0 {
+		if o.ErrorAlts && b.nNT+1 < len(ntNames) && (rapid.IntRange(0, 2).Draw(t, "errList") == 0 || o.ErrIdiom) {
 			// the classical idiom: a (possibly empty) list of statements, one of
 			// whose alternatives starts with error and ends in a synchronising token
 			ln, lpi := b.newNT()
@@ -455,6 +456,18 @@ func SynGrammar(o SynOpts) *rapid.Generator[*gr.Grammar] {
 			nOk := rapid.IntRange(1, 2).Draw(t, "stmtAlts")
 			for k := 0; k < nOk; k++ {
 				stAlts = append(stAlts, gr.Alt_{Syms: []gr.Sym{b.term(), sync}})
+			}
+			if b.nNT < len(ntNames) && rapid.Bool().Draw(t, "stmtOptPrefix") {
+				// a statement that starts with an optional part: when the error comes
+				// right behind it, the value of the empty alternative (nil unless it
+				// has an action) is among the attributes the recovery discards
+				on, opi := b.newNT()
+				b.prods[opi].Alts = []gr.Alt_{{Empty: true}, {Syms: []gr.Sym{b.term()}}}
+				if rapid.Bool().Draw(t, "stmtOptOrder") {
+					b.prods[opi].Alts[0], b.prods[opi].Alts[1] = b.prods[opi].Alts[1], b.prods[opi].Alts[0]
+				}
+				last := &stAlts[len(stAlts)-1]
+				last.Syms = append([]gr.Sym{nt(on)}, last.Syms...)
 			}
 			b.prods[spi].Alts = rapid.Permutation(stAlts).Draw(t, "stmtOrder")
 			switch rapid.IntRange(0, 3).Draw(t, "listShape") {
@@ -470,10 +483,12 @@ func SynGrammar(o SynOpts) *rapid.Generator[*gr.Grammar] {
 			// the list becomes the start symbol, or is hung below the old start
 			if rapid.Bool().Draw(t, "listIsStart") {
 				np := []gr.Prod{b.prods[lpi], b.prods[spi]}
+				np = append(np, b.prods[spi+1:]...) // the optional prefix, if any
+				nIdiom := len(np)
 				np = append(np, b.prods[:lpi]...)
 				b.prods = np
-				if rapid.Bool().Draw(t, "useOldStart") && len(b.prods) > 2 {
-					b.prods[1].Alts = append(b.prods[1].Alts, gr.Alt_{Syms: []gr.Sym{nt(b.prods[2].Name), sync}})
+				if rapid.Bool().Draw(t, "useOldStart") && len(b.prods) > nIdiom {
+					b.prods[1].Alts = append(b.prods[1].Alts, gr.Alt_{Syms: []gr.Sym{nt(b.prods[nIdiom].Name), sync}})
 				}
 			} else {
 				b.prods[0].Alts = append(b.prods[0].Alts, gr.Alt_{Syms: []gr.Sym{b.term(), nt(ln)}})
